@@ -149,11 +149,14 @@ def run(ck, facts):
             if sets:
                 i_scan = i
                 # the iterated value must come from find_top_level_attr
-                src_ok = False
-                if it_local.get("k") == "local":
+                src_ok = any((C.callee(x) or "").endswith("config::find_top_level_attr") for x in C.calls_in(f["iter"]))
+                # the iterator expression may be a chain over a local (`cfg.into_iter().flat_map(..)`): follow the locals it mentions
+                for loc_ in [x for x in C.walk(f["iter"]) if x.get("k") == "local"]:
                     for t in gs[:i]:
-                        if t.get("k") == "letst" and t["pat"].get("n") == it_local["n"]:
-                            src_ok = any((C.callee(x) or "").endswith("config::find_top_level_attr") for x in C.calls_in(t["init"]))
+                        if t.get("k") == "letst" and isinstance(t.get("pat"), dict) and t["pat"].get("n") == loc_["n"] and t.get("init") is not None:
+                            src_ok = src_ok or any((C.callee(x) or "").endswith("config::find_top_level_attr") for x in C.calls_in(t["init"]))
+                short = [x.get("m") for x in C.walk(f["iter"]) if x.get("k") == "mcall" and x.get("m") in ("take", "skip", "find", "filter", "next", "first", "last", "nth", "step_by", "rev")]
+                src_ok = src_ok and not short
                 ck.expect(src_ok, "R1", "gen/scan-source", "loop over find_top_level_attr(module.items)", "the #[diplomat::config] loop does not iterate the result of find_top_level_attr", C.loc(gen, f.get("ln")))
         if s.get("k") != "for":
             ov = mcalls_on(s, "get_overridden")
@@ -251,7 +254,41 @@ def run(ck, facts):
                     ok = rep[:1] == [pre] and any(lang in (rf or "") for rf in recv_field)
                     detail += "; others -> %s.set(key - %r)" % (recv_field, rep[:1])
         ck.expect(ok, "R3", "Config::set/" + pre, detail, "routing of `%s*` keys is not {shared -> override table under the full key; other -> that language's config with the `%s` prefix removed}" % (pre, pre), C.loc(cs, node.get("ln")))
-    ck.expect(set(prefixes) >= {"kotlin.", "demo_gen.", "nanobind.", "js."}, "R3", "Config::set/prefixes", str(sorted(prefixes)), "language prefixes handled: %s" % sorted(prefixes), C.loc(cs))
+    LANGS = {"kotlin.", "demo_gen.", "nanobind.", "js."}
+    if set(prefixes) >= LANGS:
+        ck.ok("R3", "Config::set/prefixes", str(sorted(prefixes)), C.loc(cs))
+    else:
+        # table-driven form (an enum of languages with a prefix table and a dispatch match): decide the same routing facts on everything reachable from Config::set
+        inl = list(C.walk_inl(tool, C.fn_body(cs), 2, exclude=[cs["path"]], max_nodes=600))
+        lits_dot = {x["v"] for x in inl if x.get("k") == "lit" and x.get("t") == "str" and str(x.get("v", "")).endswith(".")} | \
+                   {l_ for x in inl if x.get("k") == "match" for l_ in C.pattern_str_lits(x) if l_.endswith(".")}
+        norm = lambda s_: re.sub(r"[^a-z]", "", s_.lower())
+        # variant -> prefix literal (a match whose arms return the prefix), variant -> config field (a match whose arms call <field>.set)
+        v2pre, v2cfg = {}, {}
+        for x in inl:
+            if x.get("k") != "match":
+                continue
+            for arm in x["arms"]:
+                v = (arm["pat"].get("v") or "").split("::")[-1]
+                if not v:
+                    continue
+                b = C.strip(arm["b"])
+                if b.get("k") == "lit" and str(b.get("v", "")).endswith("."):
+                    v2pre[v] = b["v"]
+                for y in C.walk(arm["b"]):
+                    if y.get("k") == "mcall" and y.get("m") == "set":
+                        flds = [z.get("n") for z in C.walk(y["recv"]) if z.get("k") == "field"]
+                        raw_key = C.strip(y["a"][0]).get("k") == "local" and C.strip(y["a"][0]).get("n") == "key" if y.get("a") else False
+                        if flds:
+                            v2cfg[v] = (flds[0], raw_key)
+        pair_ok = all(norm(pre) == norm(v) for v, pre in v2pre.items()) and all(norm(fld).startswith(norm(v)) and not raw for v, (fld, raw) in v2cfg.items())
+        shared_route = any(y.get("k") == "mcall" and y.get("m") == "insert" and any(z.get("k") == "field" and z.get("n") == "language_overrides" for z in C.walk(y["recv"]))
+                           and any(z.get("k") == "local" and z.get("n") == "key" for z in C.walk(y["a"][0])) for y in inl) and \
+            any((C.callee(y) or "").endswith("SharedConfig::overrides_shared") for y in inl if y.get("k") in ("call", "mcall"))
+        ck.expect(lits_dot >= LANGS and pair_ok and shared_route and set(v2pre.values()) >= LANGS and {"Kotlin", "DemoGen", "Js"} <= set(v2cfg), "R3", "Config::set/prefixes",
+                  "table-driven: %s -> %s" % (v2pre, {k_: v_[0] for k_, v_ in v2cfg.items()}),
+                  "language routing of Config::set could not be established: prefixes %s, variant->prefix %s, variant->config %s, shared keys -> override table: %s" % (sorted(lits_dot), v2pre, v2cfg, shared_route), C.loc(cs))
+        known_loose = {pre.rstrip(".") for pre in v2pre.values()}
     # final else -> shared_config.set(key, value)
     shared_sets = [x for x in C.walk(C.fn_body(cs)) if x.get("k") == "mcall" and x.get("m") == "set" and any(y.get("k") == "field" and y.get("n") == "shared_config" for y in C.walk(x["recv"]))]
     ck.expect(len(shared_sets) == 1 and C.strip(shared_sets[0]["a"][0]).get("n") == "key", "R3", "Config::set/unscoped->shared", "", "unscoped keys are not stored into the shared config under their own name", C.loc(cs))
@@ -264,10 +301,19 @@ def run(ck, facts):
     if okl:
         body = loops[0]["body"]
         ifs = [x for x in C.walk(body) if x.get("k") == "if"]
-        okl = len(ifs) == 1 and C.strip(ifs[0]["c"]).get("k") == "mcall" and C.strip(ifs[0]["c"]).get("m") == "starts_with" and C.strip(C.strip(ifs[0]["c"])["a"][0]).get("n") == "m"
+        # the local holding `format!("{}.", target)` (whatever it is called)
+        pre_names = {n["pat"].get("n") for n in C.walk(gb) if n.get("k") == "letst" and isinstance(n.get("pat"), dict) and n.get("init") is not None and
+                     any(C.macro_strings(m_) == ["{}."] for m_ in C.walk(n["init"]) if m_.get("k") == "macro" and m_.get("name") == "format")}
+
+        def is_pre(e):
+            e = C.strip(e)
+            while isinstance(e, dict) and e.get("k") in ("addr", "deref") or (isinstance(e, dict) and e.get("k") == "mcall" and e.get("m") in ("as_str", "as_ref", "clone")):
+                e = C.strip(list(C.children(e))[0]) if e.get("k") != "mcall" else C.strip(e["recv"])
+            return isinstance(e, dict) and e.get("k") == "local" and e.get("n") in pre_names
+        okl = len(ifs) == 1 and C.strip(ifs[0]["c"]).get("k") == "mcall" and C.strip(ifs[0]["c"]).get("m") == "starts_with" and is_pre(C.strip(ifs[0]["c"])["a"][0])
         sets = [x for x in C.walk(body) if x.get("k") == "mcall" and x.get("m") == "set"]
         okl = okl and len(sets) == 1 and any(y.get("k") == "field" and y.get("n") == "shared_config" for y in C.walk(sets[0]["recv"])) and \
-            any(y.get("k") == "mcall" and y.get("m") == "replace" and C.strip(y["a"][0]).get("n") == "m" for y in C.walk(sets[0]["a"][0])) and \
+            any(y.get("k") == "mcall" and y.get("m") in ("replace", "replacen", "strip_prefix", "trim_start_matches") and is_pre(y["a"][0]) for y in C.walk(sets[0]["a"][0])) and \
             all(x in list(C.walk(ifs[0]["t"])) for x in sets)
     ck.expect(okf and okl, "R3", "get_overridden/filter", "applies overrides whose key starts with `<target>.`", "get_overridden no longer applies exactly the overrides prefixed with `<target>.` to the shared config", C.loc(go))
     # accepted target spellings vs prefixes
@@ -280,22 +326,22 @@ def run(ck, facts):
             if lits:
                 groups.append(lits)
     ck.expect(len(groups) >= 7, "R3", "gen/targets", str(groups), "cannot read the accepted target names from gen", C.loc(gen))
-    known = {p.rstrip(".") for p in prefixes}
+    known = {p.rstrip(".") for p in prefixes} if set(prefixes) >= LANGS else known_loose
     # aliases canonicalised before the override step: let target_language = if target_language == "<alias>" { "<canonical>" } else { .. }
     canon = {}
     for s in gs[: (i_over or 0)]:
         if s.get("k") == "letst" and s["pat"].get("n") == "target_language" and s.get("init"):
-            for x in C.walk(s["init"]):
+            for x in C.walk_inl(tool, s["init"], 1, exclude=[gen["path"]]):
                 if x.get("k") == "if":
                     c = C.strip(x["c"])
                     if c.get("k") == "bin" and c.get("op") == "Eq":
                         sides = [C.strip(c["l"]), C.strip(c["r"])]
                         lit = [q for q in sides if q.get("k") == "lit"]
-                        loc_ = [q for q in sides if q.get("k") == "local" and q.get("n") == "target_language"]
+                        loc_ = [q for q in sides if q.get("k") == "local"]
                         tv = C.strip(x["t"])
                         if lit and loc_ and tv.get("k") == "lit":
                             canon[lit[0]["v"]] = tv["v"]
-                if x.get("k") == "match" and C.strip(x["s"]).get("n") == "target_language":
+                if x.get("k") == "match" and C.strip(x["s"]).get("k") == "local":
                     for a in x["arms"]:
                         if a["pat"].get("k") == "lit" and C.strip(a["b"]).get("k") == "lit":
                             canon[a["pat"]["v"]] = C.strip(a["b"])["v"]
